@@ -33,3 +33,7 @@ pub type Result<T> = std::result::Result<T, Error>;
 
 pub use anchor_lang;
 pub use bytemuck;
+
+/// Verification hooks: additive re-exports of crate-private items for the /verif harness.
+#[cfg(feature = "verif-hooks")]
+pub mod verif;
